@@ -84,7 +84,7 @@ Proof. exact next_idempotent_between. Qed.
 Print Assumptions C06_idempotent_between_partial.
 
 (* the hypotheses are satisfiable: a list with a daily once(), a self-consistent time-only period(), a now-based closed
-   period(), a yearly once(), a daily window over midnight and cron(* * * * *) with its successor function *)
+   period(), a yearly once(), a daily window over midnight and the every-minute crontab with its successor function *)
 Theorem C06_hypotheses_inhabited : forall now,
   specs_ok sc next_minute est_lu ex_specs now /\ tz_const est_lu est_ul /\ cron_ok next_minute every_minute.
 Proof. exact (fun now => conj (ex_specs_ok now) (conj est_const every_minute_ok)). Qed.
@@ -127,3 +127,33 @@ Theorem C06_refuted_D64 : exists specs now su r,
   ~ successor_of (denotes_any sc nosun est_lu est_ul true specs su now) now su r.
 Proof. exact refuted_D64. Qed.
 Print Assumptions C06_refuted_D64.
+
+Theorem C06_refuted_D65 : exists specs now su t,
+  next_list sc nosun next_minute est_lu est_ul as_code false specs now su = RExc /\
+  next_list sc nosun next_minute est_lu est_ul all_off false specs now su = ROk (Some (t, t)) /\
+  now < t /\ denotes_any sc nosun est_lu est_ul true specs su now t.
+Proof. exact refuted_D65. Qed.
+Print Assumptions C06_refuted_D65.
+
+(* ---------- the wake-up loops: conformant variants run the function at the trigger time, the code's do not ---------- *)
+Theorem C06_legacy_wake_conformant : forall lu ul cfg f t u, d_legacy_gap_recheck cfg = false -> ul (lu t) = t ->
+  legacy_wake lu ul cfg (S (S f)) t u = Some (if ul u <? t then lu t else u).
+Proof. exact legacy_wake_conformant. Qed.
+Print Assumptions C06_legacy_wake_conformant.
+
+Theorem C06_default_wake_conformant : forall lu ul cfg f t adj u, d_newsub_adj_recheck cfg = false -> ul (lu t) = t ->
+  default_wake lu ul cfg (S (S f)) t adj u = Some (if (t <=? ul u) || (lu t - u <=? 1) then u else lu t).
+Proof. exact default_wake_conformant. Qed.
+Print Assumptions C06_default_wake_conformant.
+
+Theorem C06_refuted_D62 : exists t adj u,
+  default_wake (tz_lu ny2024) (tz_ul ny2024) as_code 5 t adj u = Some (tz_lu ny2024 t + HOUR) /\
+  default_wake (tz_lu ny2024) (tz_ul ny2024) all_off 5 t adj u = Some (tz_lu ny2024 t).
+Proof. exact refuted_D62. Qed.
+Print Assumptions C06_refuted_D62.
+
+Theorem C06_refuted_D66 : exists t u,
+  legacy_wake (tz_lu ny2024) (tz_ul ny2024) as_code 5 t u = Some (tz_lu ny2024 t + HOUR) /\
+  legacy_wake (tz_lu ny2024) (tz_ul ny2024) all_off 5 t u = Some (tz_lu ny2024 t).
+Proof. exact refuted_D66. Qed.
+Print Assumptions C06_refuted_D66.
